@@ -107,7 +107,7 @@ static void* s_waiter(void* p) {
   g_op();
   return NULL;
 }
-static int s_bcast;
+static int s_bcast, s_sig_outside;
 static void* s_signaller(void* p) {
   (void)p;
   int need = nw;
@@ -125,6 +125,15 @@ static void* s_signaller(void* p) {
       registered--;
       need--;
       g_signal();
+      if (s_sig_outside) { /* the registration was seen under the mutex; the signal itself is issued after unlocking,
+                              so it can overlap other waiters entering fiber_cond_wait */
+        g_unlock();
+        RS1(fiber_mutex_unlock, &cm);
+        fiber_cond_signal(&cv);
+        g_op();
+        if (need) RS0(fiber_yield);
+        continue;
+      }
       fiber_cond_signal(&cv);
     }
     g_unlock();
@@ -140,6 +149,7 @@ void h_run(void) {
   nw = wl_int(1, 4);
   ns = strict_mode ? 1 : wl_int(1, 3);
   s_bcast = wl_pct(50);
+  s_sig_outside = wl_pct(50);
   wper = wl_int(1, 3);
   int total = nw * wper, left = total;
   for (int i = 0; i < ns; i++) {
